@@ -1,3 +1,5 @@
 import PfVerif.Audit.Tool
 import PfVerif.Props.C11
+import PfVerif.Lemmas.C11Engine
 #audit_module PfVerif.Props.C11
+#audit_module_ns PfVerif.Lemmas.C11Engine PfVerif.C11Engine
